@@ -7,6 +7,7 @@ package main
 // Events are stamped with one global atomic sequence number at the moment they are logged.
 
 import (
+	"errors"
 	"context"
 	"flag"
 	"fmt"
@@ -37,7 +38,16 @@ type blockedCall struct {
 	untilCtx bool // waits for its context only; the driver never releases it
 }
 
+type rejectedProposal struct {
+	h, v uint64
+	blk  *vBlock
+}
+
 type rt struct {
+	rejectedSeen []rejectedProposal // proposals the consumer rejected: the (Byzantine) peers vote for them all the same
+	slowSeq    int64
+	rejectSalt int
+	rejecting int32 // some of the peers' proposals are rejected by the consumer (off during the final probes)
 	cl   *cluster
 	adv  *adversary
 	main *leanhelix.MainLoop
@@ -103,10 +113,15 @@ func (r *rt) intn(n int) int {
 
 // gate: maybe block the calling SPI until released or until ctx is done. Returns ctx.Err() != nil at return.
 func (r *rt) gate(ctx context.Context, kind string, h, v int) bool {
+	return r.gateF(ctx, kind, h, v, false)
+}
+
+// gateF: force = the call blocks whatever the run's probabilities say (released by the driver like any other)
+func (r *rt) gateF(ctx context.Context, kind string, h, v int, force bool) bool {
 	r.gateMu.Lock()
 	r.nextCall++
 	id := r.nextCall
-	block := r.intn(100) < r.blockProb[kind]
+	block := force || r.intn(100) < r.blockProb[kind]
 	// worst-case consumer: a call about a height that an accepted sync has already left behind waits for its context only
 	// (the commit callback included: a sync with the block of the height being committed tells the node to leave it)
 	behind := int64(h) <= atomic.LoadInt64(&r.maxOkSync) && r.intn(2) == 0
@@ -175,13 +190,25 @@ func (r *rt) RequestNewBlockProposal(ctx context.Context, blockHeight primitives
 }
 func bodyView(body string) int {
 	var h, v, k int
-	if _, err := fmt.Sscanf(body, "peer.h%d.v%d.%d", &h, &v, &k); err == nil {
+	if _, err := fmt.Sscanf(strings.TrimPrefix(body, "X"), "peer.h%d.v%d.%d", &h, &v, &k); err == nil {
 		return v
 	}
 	return 0
 }
 func (r *rt) ValidateBlockProposal(ctx context.Context, blockHeight primitives.BlockHeight, memberId primitives.MemberId, block interfaces.Block, blockHash primitives.BlockHash, prevBlock interfaces.Block) error {
-	r.gate(ctx, "validate", int(blockHeight), bodyView(blockName(block)))
+	// the validation of a proposal that is going to be rejected takes its time (every other one), so that elections and syncs
+	// arrive while it runs
+	slow := strings.HasPrefix(blockName(block), "X") && atomic.AddInt64(&r.slowSeq, 1)%2 == 0
+	r.gateF(ctx, "validate", int(blockHeight), bodyView(blockName(block)), slow)
+	if strings.HasPrefix(blockName(block), "X") { // the consumer's verdict does not depend on whether the call was interrupted
+		r.log("validate.rejected", obj{"blk": blockName(block), "h": int(blockHeight)})
+		if vb, ok := block.(*vBlock); ok {
+			r.gateMu.Lock()
+			r.rejectedSeen = append(r.rejectedSeen, rejectedProposal{h: uint64(blockHeight), v: uint64(bodyView(vb.body)), blk: vb})
+			r.gateMu.Unlock()
+		}
+		return errors.New("consumer rejects the proposal")
+	}
 	return nil
 }
 func (r *rt) ValidateBlockCommitment(blockHeight primitives.BlockHeight, block interfaces.Block, blockHash primitives.BlockHash) bool {
@@ -236,6 +263,9 @@ func (r *rt) sample(obs string) {
 
 func (r *rt) peerBlock(h uint64, v uint64) *vBlock {
 	body := fmt.Sprintf("peer.h%d.v%d.0", h, v)
+	if atomic.LoadInt32(&r.rejecting) != 0 && (h*7+v*5+uint64(r.rejectSalt))%3 == 0 { // a proposal the node's consumer rejects (C04)
+		body = "X" + body
+	}
 	r.cl.addBody(body)
 	return &vBlock{height: h, body: body}
 }
@@ -280,7 +310,7 @@ func (r *rt) traffic() {
 	if h == 0 || v > 1000 {
 		return
 	}
-	leaderIdx := int(v % uint64(r.cl.nMembers))
+	leaderIdx := r.leaderIdx(h, v)
 	var blk *vBlock
 	if leaderIdx == 0 {
 		b, ok := r.proposalOfNode(h, v)
@@ -333,6 +363,50 @@ func (r *rt) traffic() {
 	}
 }
 
+// leaderIdx: member index of the leader of (h, v) - the committee order rotates with the height in half of the runs, so that the
+// node under test (member 0) is a follower in view 0 of most heights and validates the peers' first proposals
+func (r *rt) leaderIdx(h, v uint64) int {
+	com := r.cl.committeeAt(h)
+	id := com[int(v%uint64(len(com)))].Id
+	for i, x := range r.cl.ids {
+		if x.Equal(id) {
+			return i
+		}
+	}
+	return 0
+}
+
+// votesForRejected: the peers PREPARE and COMMIT every proposal the node's consumer has rejected (whatever view the node
+// has moved to since): nothing may come of it
+func (r *rt) votesForRejected() {
+	r.gateMu.Lock()
+	todo := r.rejectedSeen
+	r.rejectedSeen = nil
+	r.gateMu.Unlock()
+	for _, rp := range todo {
+		leaderIdx := r.leaderIdx(rp.h, rp.v)
+		for i := 1; i < r.cl.nMembers; i++ {
+			if i != leaderIdx {
+				r.deliver(r.adv.mkP(ref(protocol.LEAN_HELIX_PREPARE, rp.h, rp.v, rp.blk), r.cl.ids[i], ""), "P")
+			}
+		}
+		seeds := [][]byte{randomseed.RandomSeedToBytes(randomseed.CalculateRandomSeed(protocol.BlockProofReader(nil).RandomSeedSignature()))}
+		r.sendMu.Lock()
+		if pr, ok := r.proofs[int(rp.h)-1]; ok {
+			seeds = append(seeds, randomseed.RandomSeedToBytes(randomseed.CalculateRandomSeed(protocol.BlockProofReader(pr).RandomSeedSignature())))
+		}
+		r.sendMu.Unlock()
+		for _, sd := range seeds {
+			for i := 1; i < r.cl.nMembers; i++ {
+				rb := ref(protocol.LEAN_HELIX_COMMIT, rp.h, rp.v, rp.blk).builder()
+				cc := &protocol.CommitContentBuilder{SignedHeader: rb, Sender: r.adv.sig(r.cl.ids[i], primitives.BlockHeight(rp.h), rb.Build().Raw(), ""),
+					Share: r.cl.ring.share(r.cl.ids[i], rp.h, sd)}
+				r.deliver(wrap(&protocol.LeanhelixContentBuilder{Message: protocol.LEANHELIX_CONTENT_MESSAGE_COMMIT_MESSAGE, CommitMessage: cc}, nil), "C")
+			}
+		}
+	}
+}
+
 // garbage: content that is not a well-formed message
 func (r *rt) garbage(rnd interface {
 	Intn(int) int
@@ -344,7 +418,12 @@ func (r *rt) garbage(rnd interface {
 		src = r.sends[rnd.Intn(len(r.sends))].raw
 	}
 	r.sendMu.Unlock()
-	switch k := rnd.Intn(4); {
+	switch k := rnd.Intn(5); {
+	case k == 4:
+		if src != nil && rnd.Intn(2) == 0 {
+			return &interfaces.ConsensusRawMessage{Content: nil, Block: src.Block}, "garbage_nil_content_with_block"
+		}
+		return &interfaces.ConsensusRawMessage{Content: nil}, "garbage_nil_content"
 	case k == 0 || src == nil || len(src.Content) < 4:
 		b := make([]byte, rnd.Intn(64))
 		rnd.Read(b)
@@ -544,7 +623,7 @@ func (r *rt) flood() {
 
 func runRuntime(p rtParams, runId int) []rtEvent {
 	rnd := newRand(p.seed)
-	cl := newCluster([]uint64{1, 1, 1, 1}, []int{0, 1, 2, 3}, 1, false) // no cluster nodes: every key is held by the harness
+	cl := newCluster([]uint64{1, 1, 1, 1}, []int{0, 1, 2, 3}, 1, rnd.Intn(2) == 0) // no cluster nodes: every key is held by the harness
 	r := &rt{cl: cl, adv: newAdversary(cl), me: cl.ids[0], rnd: newRand(p.seed + 1), maxOkSync: -1, blocked: map[int]*blockedCall{}, proofs: map[int][]byte{}, elecCh: make(chan *interfaces.ElectionTrigger),
 		blockProb: map[string]int{"committee": rnd.Intn(30), "propose": rnd.Intn(60), "validate": rnd.Intn(60), "commit": rnd.Intn(40)}, ctxOnly: rnd.Intn(70)}
 	atomic.StoreInt32(&r.failCommit, int32(rnd.Intn(25)))
@@ -650,6 +729,10 @@ func runRuntime(p rtParams, runId int) []rtEvent {
 			}
 		}()
 	}
+	if rnd.Intn(2) == 0 {
+		r.rejectSalt = rnd.Intn(3)
+		atomic.StoreInt32(&r.rejecting, 1)
+	}
 	r.updateState(ctx, 0, "driver") // start: sync with genesis
 	maxB, floods := 0, 0
 	for i := 0; i < p.ops; i++ {
@@ -657,6 +740,7 @@ func runRuntime(p rtParams, runId int) []rtEvent {
 			doCancel()
 			break
 		}
+		r.votesForRejected()
 		switch x := rnd.Intn(100); {
 		case x < 45:
 			r.traffic()
@@ -678,7 +762,11 @@ func runRuntime(p rtParams, runId int) []rtEvent {
 				pick.untilCtx = true
 			}
 			r.gateMu.Unlock()
-			if pick != nil {
+			if pick != nil && (pick.kind == "validate" || pick.kind == "propose") && rnd.Intn(2) == 0 {
+				// ... or the election of the view the call belongs to fires while it runs
+				r.log("driver.election_over_blocked_call", obj{"call": pick.id, "kind": pick.kind, "h": pick.h})
+				r.fireElection(false)
+			} else if pick != nil {
 				r.log("driver.sync_over_blocked_call", obj{"call": pick.id, "kind": pick.kind, "h": pick.h})
 				r.updateState(ctx, pick.h, "driver")
 				if pick.h > maxB {
@@ -730,6 +818,7 @@ func runRuntime(p rtParams, runId int) []rtEvent {
 			time.Sleep(time.Duration(rnd.Intn(300)) * time.Microsecond)
 		}
 	}
+	atomic.StoreInt32(&r.rejecting, 0)
 	if !cancelled {
 		// quiesce: release what the driver may release; calls waiting for their context only stay blocked.
 		// The node must get past every accepted sync on its own.
